@@ -82,6 +82,16 @@ CLAIMS = {
         technique="TLA+ transcription of the ownership algorithm, TLC exhaustive over assignments; recorded real partitions validated by a TLA+ trace specification; per-part assembly replay",
         design_ref="DESIGN.md 6/C20",
     ),
+    "C17": dict(
+        text="spec/Splits.tla builds, in exact rational arithmetic, a lattice of strain states (every multiplicity / sign pattern of the principal values in 2-D and 3-D, zero, hydrostatic, uniaxial, "
+        "rotated by rational rotations) together with the exact Miehe split (sigma+, psi+) and checks the partition relations on the model; the states are replayed MIXED inside elements through "
+        "Calc_Sigma_e_pg / Calc_psi_e_pg for all 14 splits x regularisations x isotropic / transversely isotropic materials (finite, sigma+ + sigma- = C:eps, psi+ + psi- = psi, exact values for Miehe/Bourdin), "
+        "then float neighbours of every lattice state (random rotations, symmetric noise 0..1e-4) are compared with a split built on numpy.linalg.eigh. spec/PhaseFieldHist.tla enumerates load / unload programs; each "
+        "is run on a real PhaseField simulation per irreversibility solver, reduced to counts per saved step and validated by Trace_PhaseFieldHist.tla (history never decreases; damage never decreases for damage-based solvers; no load, no damage; 0 <= d <= 1).",
+        note="Trusted: TLC and Rat.tla arithmetic, numpy.linalg.eigh for the float neighbourhoods (1e-3 relative there, 1e-9 on the exact lattice), a 3x3 QUAD4 simulation as the history bed. Exact split values exist for Miehe and Bourdin; other splits are decided for finiteness and the partition relations.",
+        technique="TLC-enumerated exact strain lattice and load programs replayed into the implementation (model-based test generation) + recorded step traces validated by a TLA+ trace spec",
+        design_ref="DESIGN.md 6/C17",
+    ),
     "C16": dict(
         text="spec/Results.tla defines the meaning of result names per simulation kind (Elastic 2D/3D, Thermal, Beam 1D/2D/3D, PhaseField 2D/3D, HyperElastic, WeakForms with 2 and 3 dofs per node) as tokens "
         "(field, component | norm | all | von Mises at each Gauss point then element mean). The harness sets u, v, a (and the damage) to mutually distinguishable random arrays - not an equilibrium state - "
